@@ -446,7 +446,7 @@ for _p, _t in CLAIMS.items():
     if _p in NOTES: PROPS[_p]['note'] = NOTES[_p]
 
 # Components whose claim text was drafted at integration and reviewed: the draft becomes the claim.
-REVIEWED = ['C02', 'C06', 'C07', 'C09', 'C10', 'C12', 'C14', 'C15', 'C16', 'C17', 'C18', 'C19', 'C20', 'C21', 'C22', 'C23', 'C24', 'C25', 'C26', 'C27', 'C28', 'C29']
+REVIEWED = ['C02', 'C06', 'C07', 'C09', 'C10', 'C11', 'C12', 'C14', 'C15', 'C16', 'C17', 'C18', 'C19', 'C20', 'C21', 'C22', 'C23', 'C24', 'C25', 'C26', 'C27', 'C28', 'C29']
 for _p in REVIEWED:
     if 'claim_draft' in PROPS.get(_p, {}):
         PROPS[_p]['claim'] = PROPS[_p]['claim_draft']
